@@ -1,0 +1,9 @@
+//go:build verif
+
+package ingest
+
+// Contracts of the b6vc verifier (/verif), as //@ comment blocks keyed by
+// function name and loop ordinal.
+
+//@ extern github.com/golang/geo/s1.Angle.E7
+//@   pure
